@@ -17,6 +17,7 @@ Ctl(c) == {Fr(c, op, TRUE, n) : op \in {OpPing, OpPong}, n \in CtlLens}
 
 AcceptCodes == {1000, 1001, 1002, 1003, 1007, 1008, 1009, 1010, 1011, 3000, 3999, 4000, 4999}
 Closes(c) == {CloseFr(c, code, n) : code \in AcceptCodes, n \in ReasonLens} \cup {EmptyClose(c)}
+             \cup {[CloseFr(c, code, n) EXCEPT !.rs = r] : code \in {1000, 4000}, n \in {3, 4, 123}, r \in GoodReasons \ {"ok"}}
 
 MCStreams(c) ==
   {<< k1, T(c, FALSE, 2), k2, C(c, TRUE, 3), k3, D(c, TRUE, 1) >> : k1 \in Ctl(c), k2 \in Ctl(c), k3 \in Ctl(c)}
